@@ -50,7 +50,9 @@ CLAIMS = {
              "and never replaced, entries under other keys are unchanged. Hence literals with different texts or tags ('0.0' / '-0.0', "
              "'1' / '1L', int / float) never share a pooled object. Kernel: the pool of int and float literals. BOUNDED (labelled, not "
              "counted): ExprNodes.make_dedup_key, the pooling key of tuple / frozenset / slice constants, by enumeration of all pairs of "
-             "short item sequences over a fixed atom set on the real function.",
+             "short item sequences over a fixed atom set on the real function; IntNode.value_as_c_integer_string (text -> C text) over "
+             "320 spellings (4 bases x 2 signs) of magnitudes around the 32/64-bit boundaries against an LP64 model of C's literal "
+             "typing (C11 6.4.4.1) and unary minus.",
         note="Trusted: dv Python front end (literal texts and tags as abstract identities, tuple keys through an injective pairing with "
              "projections, any non-identity key such as float(text) an uninterpreted function), z3; NumConst.__init__ and "
              "new_num_const_cname are contract stubs (the chosen C names are NOT part of the contract: seed C09-a, colliding cnames of "
@@ -90,7 +92,10 @@ CLAIMS = {
         text="Proof for ALL texts that Options.parse_directive_value, for a directive whose declared type is bool, returns True only for "
              "'True' (with relaxed_bool also texts whose lower() is 'true' or 'yes'), False only for 'False' ('false' / 'no'), and "
              "rejects every other text with ValueError - the last clause of the statement ('parsed to the documented value or "
-             "rejected') for the bulk of the directives. Kernel: this function, bool directives only.",
+             "rejected') for the bulk of the directives. InterpretCompilerDirectives.try_to_parse_directive, for a bool directive used as a "
+             "decorator or with-block: X(<bool literal>) denotes that value, X(None) denotes the BUILT-IN default of X (the dict "
+             "returned by Options.get_directive_defaults(), not the module's current setting), every other argument shape raises "
+             "PostParseError. Kernel: these two functions, bool directives only.",
         note="Trusted: dv Python front end (texts as abstract identities, str.lower() an uninterpreted function, directive_types.get an "
              "opaque lookup, str() of a str the identity), z3. NOT covered: int / str / one_of() / callable directive types, "
              "parse_directive_list, and the whole scoping and precedence part of the property (InterpretCompilerDirectives decorators and "
